@@ -55,6 +55,8 @@ func replay(cw *caseWriter, path string) {
 			lsRun(cw, tag, in, false)
 		case 16:
 			c16exec(cw, tag, in)
+		case 17:
+			c17exec(cw, tag, in)
 		case 1001, 1002, 1003, 1004, 1005, 1006, 1007, 1008, 1009, 1010, 1011, 1012:
 			res := runScenario(int(in[0]), in[1])
 			cw.emit(tag, comp, in, []uint64{uint64(res.events), uint64(res.leaders), uint64(res.acks), uint64(res.crashes), uint64(len(res.findings))}, true)
@@ -70,6 +72,10 @@ func replay(cw *caseWriter, path string) {
 // harness <component> <tier> <seed> <outfile>
 // harness replay <casefile> - <outfile>
 func main() {
+	if len(os.Args) >= 2 && os.Args[1] == "c17cell" {
+		c17child(os.Args[2:])
+		return
+	}
 	if len(os.Args) < 5 {
 		fmt.Fprintln(os.Stderr, "usage: harness <component> <quick|thorough> <seed> <outfile>")
 		os.Exit(2)
@@ -111,6 +117,8 @@ func main() {
 		runC20(cw, tier, seed)
 	case "c16":
 		runC16(cw, tier, seed)
+	case "c17":
+		runC17(cw, tier, seed)
 	case "c07":
 		runC07(cw, tier, seed)
 	case "c11":
